@@ -17,6 +17,7 @@ package conway
 import (
 	"encoding/hex"
 	"fmt"
+	"math/big"
 	"strings"
 
 	"github.com/blinklabs-io/gouroboros/ledger/allegra"
@@ -308,6 +309,23 @@ type (
 	DelegateToUnregisteredPoolError          = shelley.DelegateToUnregisteredPoolError
 	DelegateUnregisteredStakeCredentialError = shelley.DelegateUnregisteredStakeCredentialError
 )
+
+// IncorrectCertificateDepositError indicates a certificate naming a deposit or
+// refund amount that is not the one the ledger uses
+type IncorrectCertificateDepositError struct {
+	CertificateType common.CertificateType
+	Supplied        int64
+	Expected        *big.Int
+}
+
+func (e IncorrectCertificateDepositError) Error() string {
+	return fmt.Sprintf(
+		"incorrect certificate deposit: type %d, supplied %d, expected %s",
+		e.CertificateType,
+		e.Supplied,
+		e.Expected.String(),
+	)
+}
 
 // DelegateVoteToUnregisteredDRepError indicates vote delegation to a DRep that is not registered
 type DelegateVoteToUnregisteredDRepError struct {
